@@ -243,6 +243,6 @@ def worker(ctx: Ctx):
     paths = masking_shipped()
     if ctx.idx == 0:
         ctx.extra["shipped_masking_scenarios"] = ", ".join(paths)
-    hyp_run(ctx, masked_gen_case(25), run_case, 25 if q else 800, sub=0)
+    hyp_run(ctx, masked_gen_case(25), run_case, 55 if q else 800, sub=0)
     if paths:
-        hyp_run(ctx, shipped_case_strategy(paths, max_ops=15), run_case, 4 if q else 150, sub=1)
+        hyp_run(ctx, shipped_case_strategy(paths, max_ops=15), run_case, 8 if q else 150, sub=1)
